@@ -63,6 +63,7 @@ class ForcedExecutor:
 
     def __init__(self, order, rng=None):
         self.order, self.rng = order, rng
+        self._max_workers = 1          # the attribute real executors carry: jobs here run one at a time, in the forced order
         self.events = []
         self.pending = []
         self.count = 0
